@@ -1,15 +1,23 @@
 import TTV.Model.Reactor
 /-! Model of `AsynchronousDeferredRunTest` (C14) on the shared virtual-time reactor / `Spinner` model.
 
-A test program: `setUp`, the test method, `tearDown` (each registering cleanups at its start) where every
-stage independently performs side effects (leave a delayed call, log an error, drop a failed Deferred, flush
-the logged errors, a failing `expectThat`) and then returns / raises / returns a Deferred that fires or fails
-after a delay / never fires.  Interrupts are `reactor.stop()` requests scheduled before the run.
+A test program: `setUp`, the test method, `tearDown` and cleanups (each stage registering cleanups at its start
+- cleanups may register cleanups, to any depth) where every stage independently performs side effects (leave a
+delayed call, log an error, drop a failed Deferred, flush the logged errors, a failing `expectThat`) and then
+returns / raises / returns a Deferred that fires or fails after a delay / never fires; the exception is an error,
+a failure, a skip or one that no handler claims (`KeyboardInterrupt`, `SystemExit`).  Interrupts are
+`reactor.stop()` requests scheduled before the run.
 
 * `_run_deferred`'s callback chain and `_run_cleanups`: `startSetUp … runCleanups`, resumed by the delayed call
-  that fires the pending stage's Deferred (`CAct.stageDone`);
-* `Spinner.run` around it: timeout call, the loop `spin`, `_clean` (with the two obligatory iterations of
-  `AsynchronousDeferredRunTestForBrokenTwisted`);
+  that fires the pending stage's Deferred (`CAct.stageDone`); `_run_cleanups` pops the stack until it is empty and
+  keeps the *last* cleanup exception only;
+* the reactor runs in iterations (`ReactorBase.runUntilCurrent`): `drainB`, `iterateB`, `spinB` - a call scheduled
+  during an iteration, even with delay 0, waits for the next one;
+* `Spinner.run` around it: timeout call, the loop `spinB`; the result is determined when the loop ends
+  (`afterSpin`), *then* `_clean` runs (with the two obligatory iterations of
+  `AsynchronousDeferredRunTestForBrokenTwisted`, `afterIter`): what completes during those is not the run's result;
+* an exception no handler claims: reported as an error by the handler of last resort, re-raised by `run()` after
+  `stopTest` (`Trace.raised`);
 * `_blocking_run_deferred` / `_run_core`: TimeoutError / NoResultError (+ `result.stop()`), logged errors,
   unhandled errors in Deferreds, junk ⇒ `_exceptions`; one `addSuccess`; `_run_prepared_result` picks the outcome;
 * the log fixtures as operations on the list of observers.
@@ -19,8 +27,9 @@ Import-free apart from `TTV.Model.Reactor`. -/
 namespace TTV.AsyncRun
 open TTV.Reactor
 
-/-- exception classes: an error (ValueError), a failure (AssertionError), SkipTest -/
-inductive Exc | err | fail | skip
+/-- exception classes: an error (ValueError), a failure (AssertionError), SkipTest, and `ki` = an exception that
+no handler claims (KeyboardInterrupt, SystemExit) -/
+inductive Exc | err | fail | skip | ki
 deriving DecidableEq, Repr
 
 inductive Beh
@@ -39,16 +48,34 @@ inductive Side
   | expect                      -- self.expectThat(1, Equals(2))
 deriving DecidableEq, Repr
 
-structure Stage where
-  sides : List Side
-  beh : Beh
-deriving Repr
+/-- a stage function (setUp, the test method, tearDown, a cleanup): the cleanups it registers at its start (in
+order; cleanups may register cleanups), its side effects, its behaviour -/
+inductive Stage where
+  | mk (cleanups : List Stage) (sides : List Side) (beh : Beh)
 
-/-- a main stage: the cleanups it registers at its start (in order), then the stage proper -/
-structure MStage where
-  cleanups : List Stage
-  stage : Stage
-deriving Repr
+def Stage.cleanups : Stage → List Stage
+  | .mk cs _ _ => cs
+def Stage.sides : Stage → List Side
+  | .mk _ s _ => s
+def Stage.beh : Stage → Beh
+  | .mk _ _ b => b
+
+/- number of stages / an upper bound of the number of delayed calls, including everything registered transitively -/
+mutual
+def Stage.size : Stage → Nat
+  | .mk cs _ _ => 1 + sizeL cs
+def sizeL : List Stage → Nat
+  | [] => 0
+  | c :: cs => c.size + sizeL cs
+end
+
+mutual
+def Stage.calls : Stage → Nat
+  | .mk cs sides _ => sides.length + 1 + callsL cs
+def callsL : List Stage → Nat
+  | [] => 0
+  | c :: cs => c.calls + callsL cs
+end
 
 structure Prog where
   timeout : Nat
@@ -57,10 +84,9 @@ structure Prog where
   suppress : Bool               -- suppress_twisted_logging
   store : Bool                  -- store_twisted_logs
   nObs : Nat                    -- log observers installed before the run
-  setUp : MStage
-  body : MStage
-  tearDown : MStage
-deriving Repr
+  setUp : Stage
+  body : Stage
+  tearDown : Stage
 
 abbrev Input := Prog
 
@@ -88,9 +114,10 @@ structure Chain where
   logged : Nat := 0                       -- errors the error observer holds (not flushed)
   dropped : Nat := 0                      -- DebugInfos with an unhandled failure
   stages : List (SName × Nat × Nat) := [] -- stage log: name, virtual time, number of log observers
+  live : List Bool := []                  -- per logged stage: was the reactor running when it started?
+  iter : Nat := 0                         -- number of the reactor iteration in progress (0 = before the loop)
   observers : List Nat := []              -- the global log observers (ids)
   realStops : Nat := 0                    -- calls of the genuine `reactor.stop`
-deriving Repr
 
 abbrev W := World CAct Chain
 
@@ -109,14 +136,14 @@ def Chain.side (s : Side) (c : Chain) : Chain :=
 
 def doSide (s : Side) (w : W) : W :=
   match s with
-  | .junk d => schedule (w.now + d) (.user 0 .noop) w
+  | .junk d => schedule (w.now + d) (.user w.u.iter .noop) w
   | s => updU (Chain.side s) w
 
 /-- `_got_user_exception` from a main stage (errback of `_run_user`) followed by `fails.append` -/
 def Chain.caught (k : Exc) (c : Chain) : Chain := { c with excs := c.excs ++ [k], fails := true }
 
-def Chain.log (name : SName) (now : Nat) (c : Chain) : Chain :=
-  { c with stages := c.stages ++ [(name, now, c.observers.length)] }
+def Chain.log (name : SName) (now : Nat) (running : Bool) (c : Chain) : Chain :=
+  { c with stages := c.stages ++ [(name, now, c.observers.length)], live := c.live ++ [running] }
 
 inductive Status | completed (r : Option Exc) | pending
 deriving Repr
@@ -129,11 +156,11 @@ def statusOf : Beh → Status
 
 /-- call a stage function: log it, side effects, then its behaviour -/
 def launch (name : SName) (st : Stage) (w : W) : W :=
-  let w := updU (Chain.log name w.now) w
+  let w := updU (Chain.log name w.now w.running) w
   let w := st.sides.foldl (fun w s => doSide s w) w
   match st.beh with
-  | .fire d => schedule (w.now + d) (.user 0 (.stageDone none)) w
-  | .failD d k => schedule (w.now + d) (.user 0 (.stageDone (some k))) w
+  | .fire d => schedule (w.now + d) (.user w.u.iter (.stageDone none)) w
+  | .failD d k => schedule (w.now + d) (.user w.u.iter (.stageDone (some k))) w
   | _ => w
 
 /-- `clean_up_done` and `force_failure` -/
@@ -155,54 +182,60 @@ def Chain.noteCleanup (r : Option Exc) (c : Chain) : Chain :=
   | some k => { c with lastExc := some k }
   | none => c
 
-/-- `_run_cleanups`: pop and run; an exception is only remembered (the last one wins) -/
-def runCleanups : List (Nat × Stage) → W → W
-  | [], w => finishChain (updU (fun c => { c with stack := [] }) w)
-  | (i, c) :: rest, w =>
-    let w := launch (.cleanup i) c (updU (fun u => { u with stack := rest }) w)
-    match statusOf c.beh with
-    | .completed r => runCleanups rest (updU (Chain.noteCleanup r) w)
-    | .pending => updU (fun u => { u with pos := .cleanup }) w
+/-- `self.addCleanup(...)` for each, in order -/
+def Chain.register (cs : List Stage) (c : Chain) : Chain :=
+  cs.foldl (fun c s => { c with stack := (c.nextCleanup, s) :: c.stack, nextCleanup := c.nextCleanup + 1 }) c
 
-def afterCleanup (r : Option Exc) (w : W) : W :=
-  let w := updU (Chain.noteCleanup r) w
-  runCleanups w.u.stack w
+def stackSize (stack : List (Nat × Stage)) : Nat := (stack.map fun ic => ic.2.size).sum
+
+/-- `_run_cleanups`: `while case._cleanups: pop and run` (a cleanup may register more; the fuel `n` only has to
+exceed the number of stages on the stack, counted transitively); an exception - any `BaseException` since the fix
+of the lost KeyboardInterrupt - is only remembered, the last one wins -/
+def runCleanups : Nat → W → W
+  | 0, w => w
+  | n + 1, w =>
+    match w.u.stack with
+    | [] => finishChain w
+    | (i, c) :: rest =>
+      let w := launch (.cleanup i) c (updU (fun u => Chain.register c.cleanups { u with stack := rest }) w)
+      match statusOf c.beh with
+      | .completed r => runCleanups n (updU (Chain.noteCleanup r) w)
+      | .pending => updU (fun u => { u with pos := .cleanup }) w
+
+/-- run the cleanups that are on the stack now -/
+def cleanUp (w : W) : W := runCleanups (stackSize w.u.stack + 1) w
+
+def afterCleanup (r : Option Exc) (w : W) : W := cleanUp (updU (Chain.noteCleanup r) w)
 
 def Chain.noteMain (r : Option Exc) (c : Chain) : Chain :=
   match r with
   | some k => c.caught k
   | none => c
 
-/-- `self.addCleanup(...)` for each, in order -/
-def Chain.register (cs : List Stage) (c : Chain) : Chain :=
-  cs.foldl (fun c s => { c with stack := (c.nextCleanup, s) :: c.stack, nextCleanup := c.nextCleanup + 1 }) c
-
-def afterTearDown (r : Option Exc) (w : W) : W :=
-  let w := updU (Chain.noteMain r) w
-  runCleanups w.u.stack w
+def afterTearDown (r : Option Exc) (w : W) : W := cleanUp (updU (Chain.noteMain r) w)
 
 def startTearDown (p : Prog) (w : W) : W :=
-  let w := launch .tearDown p.tearDown.stage (updU (Chain.register p.tearDown.cleanups) w)
-  match statusOf p.tearDown.stage.beh with
+  let w := launch .tearDown p.tearDown (updU (Chain.register p.tearDown.cleanups) w)
+  match statusOf p.tearDown.beh with
   | .completed r => afterTearDown r w
   | .pending => updU (fun u => { u with pos := .tearDown }) w
 
 def afterBody (p : Prog) (r : Option Exc) (w : W) : W := startTearDown p (updU (Chain.noteMain r) w)
 
 def startBody (p : Prog) (w : W) : W :=
-  let w := launch .body p.body.stage (updU (Chain.register p.body.cleanups) w)
-  match statusOf p.body.stage.beh with
+  let w := launch .body p.body (updU (Chain.register p.body.cleanups) w)
+  match statusOf p.body.beh with
   | .completed r => afterBody p r w
   | .pending => updU (fun u => { u with pos := .body }) w
 
 def afterSetUp (p : Prog) (r : Option Exc) (w : W) : W :=
   match r with
-  | some k => let w := updU (Chain.caught k) w; runCleanups w.u.stack w
+  | some k => cleanUp (updU (Chain.caught k) w)
   | none => startBody p w
 
 def startSetUp (p : Prog) (w : W) : W :=
-  let w := launch .setUp p.setUp.stage (updU (Chain.register p.setUp.cleanups) w)
-  match statusOf p.setUp.stage.beh with
+  let w := launch .setUp p.setUp (updU (Chain.register p.setUp.cleanups) w)
+  match statusOf p.setUp.beh with
   | .completed r => afterSetUp p r w
   | .pending => updU (fun u => { u with pos := .setUp }) w
 
@@ -223,13 +256,47 @@ def exec (p : Prog) (_ : Nat) (a : CAct) (w : W) : W :=
     if w.stopPatched then { w with crashed := true }
     else { w with crashed := true, u := { w.u with realStops := w.u.realStops + 1 } }
 
+/-! ## the reactor's iterations
+
+A real reactor iteration (`ReactorBase.runUntilCurrent`) runs the delayed calls that are due **and were scheduled
+before the iteration began**; a call scheduled during an iteration - even with delay 0 - waits for the next
+iteration.  (`harness/vreactor.py` does the same.)  The label of a queued call is the number of the iteration in
+which it was scheduled. -/
+
+def eligible (iter : Nat) (c : DCall (QAct CAct)) : Bool :=
+  match c.act with
+  | .timeout => true
+  | .user born _ => decide (born < iter)
+
+/-- one iteration's calls: pop and run the head while it is due and eligible -/
+def drainB (p : Prog) : Nat → W → W
+  | 0, w => w
+  | n + 1, w =>
+    match w.calls with
+    | [] => w
+    | c :: rest =>
+      if c.time ≤ w.now ∧ eligible w.u.iter c = true then drainB p n (execCall (exec p) c { w with calls := rest }) else w
+
+/-- a new iteration begins -/
+def nextIter (w : W) : W := updU (fun u => { u with iter := u.iter + 1 }) w
+
+/-- `reactor.iterate(0)`: one iteration at the current time -/
+def iterateB (p : Prog) (fuel : Nat) (w : W) : W := drainB p fuel (nextIter w)
+
+/-- the loop of `reactor.run()`: while not crashed, wait for the earliest call, then one iteration -/
+def spinB (p : Prog) (fuelD : Nat) : Nat → W → W
+  | 0, w => w
+  | n + 1, w =>
+    if w.crashed then w else
+    match w.calls with
+    | [] => w
+    | c :: _ => spinB p fuelD n (iterateB p fuelD { w with now := max w.now c.time })
+
 /-! ## sizes (fuel) -/
 
-def stageCalls (s : Stage) : Nat := s.sides.length + 1
-def mstageCalls (m : MStage) : Nat := stageCalls m.stage + (m.cleanups.map stageCalls).sum
 /-- an upper bound of the number of delayed calls a run can ever schedule -/
 def bound (p : Prog) : Nat :=
-  p.stops.length + 1 + mstageCalls p.setUp + mstageCalls p.body + mstageCalls p.tearDown
+  p.stops.length + 1 + p.setUp.calls + p.body.calls + p.tearDown.calls
 
 /-! ## the log fixtures -/
 
@@ -245,8 +312,10 @@ def reAdd (obs : List Nat) (cleanups : List Nat) : List Nat := cleanups.foldl (f
 inductive Ev | startTest | success | error | failure | skip | stopTest
 deriving DecidableEq, Repr
 
-/-- `_select_exception` + handler: the last exception that is not a skip, else the last one -/
+/-- `_select_exception` + handler: an exception that no handler claims wins (reported by the handler of last
+resort as an error, then re-raised); else the last exception that is not a skip, else the last one -/
 def outcomeOf (excs : List Exc) : Ev :=
+  if excs.contains .ki then .error else
   match excs.reverse.find? (· != .skip) with
   | some .fail => .failure
   | some _ => .error
@@ -257,6 +326,7 @@ structure Trace where
   stopRequested : Bool
   raised : Bool
   stages : List (SName × Nat × Nat)
+  live : List Bool                -- per logged stage: `reactor.running` when it started
   leftover : Nat                  -- calls scheduled by the test / the interrupts that never ran
   pending : Nat                   -- `len(reactor.getDelayedCalls())` afterwards
   obsRestored : Bool              -- the log observers are the ones installed before, in the same order
@@ -281,7 +351,7 @@ def spinPhase (p : Prog) (w : W) : W :=
   let w : W := { w with stopPatched := true, running := true, crashed := false,
                         sp := { w.sp with tcall := .pending, spinning := true } }
   let w := startSetUp p w
-  spin (exec p) (fun _ => bound p) (bound p + 1) w
+  spinB p (bound p) (bound p + 1) w
 
 /-- observers while the test runs / how to put the suppressed ones back -/
 def duringObs (p : Prog) : List Nat × List Nat :=
@@ -305,9 +375,10 @@ def prepare (p : Prog) : W :=
 def afterSpin (p : Prog) : W :=
   { spinPhase p (prepare p) with running := false, stopPatched := false }
 
-/-- `_clean`'s obligatory iterations (`reactor.iterate(0)` twice for broken Twisted) -/
+/-- `_clean`'s obligatory iterations (`reactor.iterate(0)` twice for broken Twisted); the result of `Spinner.run`
+has been determined before (`try: return self._get_result() finally: self._clean()`) -/
 def afterIter (p : Prog) : W :=
-  if p.broken then drain (exec p) (bound p) (drain (exec p) (bound p) (afterSpin p)) else afterSpin p
+  if p.broken then iterateB p (bound p) (iterateB p (bound p) (afterSpin p)) else afterSpin p
 
 structure Account where
   excs : List Exc
@@ -338,9 +409,10 @@ def model (p : Prog) : Trace :=
   let w := afterIter p
   let junk := leftovers w                                    -- what `_clean` cancels and reports
   let cleaned : W := { w with calls := [], sels := [] }
-  let a := account (getResult w.sp) w.u.excs w.u.logged w.u.dropped (!junk.isEmpty)
-  { events := [.startTest] ++ outcomeEvents a ++ [.stopTest], stopRequested := a.stopReq, raised := false,
-    stages := w.u.stages, leftover := (w.calls.filter isLeftover).length,
+  let a := account (getResult (afterSpin p).sp) w.u.excs w.u.logged w.u.dropped (!junk.isEmpty)
+  { events := [.startTest] ++ outcomeEvents a ++ [.stopTest], stopRequested := a.stopReq,
+    raised := a.excs.contains .ki,                          -- `raise e` after `stopTest` for an unclaimed exception
+    stages := w.u.stages, live := w.u.live, leftover := (w.calls.filter isLeftover).length,
     pending := cleaned.calls.length,
     obsRestored := afterObs p == List.range p.nObs,
     realStops := w.u.realStops, finalTime := w.now }
